@@ -1,5 +1,6 @@
 import WellenModel.Model.Proto
 import WellenModel.Model.Offset
+import WellenModel.Model.Spec
 /-
 `wmdriver`: reads one request per line on stdin, answers `<model reply>\t<spec reply>` per line.
 Imports only the import-free `Model` modules (the same definitions the theorems are about).
@@ -25,8 +26,99 @@ def f18 (l : List Nat) (i : Nat) : String :=
   | some d => if d.elements ≥ 65536 then "F18" else "-"
   | none => "-"
 
+/-! ### store histories -/
+open Wellen.Bits Wellen.Store Wellen.Spec in
+def parseTypes (s : String) : Option (List SigType) :=
+  if s = "-" then some [] else
+  (s.splitOn ",").mapM fun t =>
+    if t = "r" then some SigType.real
+    else if t = "s" then some SigType.string
+    else (t.drop 1).toString.toNat?.map SigType.bitvec
+
+open Wellen.Bits Wellen.Spec in
+def parseOp (o : String) : Option Op :=
+  let body := (o.drop 1).toString
+  let f := body.splitOn ":"
+  match o.front, f with
+  | 't', [t] => t.toNat?.map Op.time
+  | 'a', _ => some Op.split
+  | 'v', [id, v] => do some (Op.vcd (← id.toNat?) (← hexBytes? v) none)
+  | 'v', [id, v, r] => do
+      let rl ← (if r = "-" then some none else (hexBytes? r).map some)
+      some (Op.vcd (← id.toNat?) (← hexBytes? v) rl)
+  | 'n', [id, st, v] => do some (Op.raw (← id.toNat?) (← States.ofNat? (← st.toNat?)) (← hexBytes? v))
+  | 'f', [id, v] => do some (Op.real (← id.toNat?) (← hexBytes? v))
+  | _, _ => none
+
+def kindChar : Wellen.Bits.States → String
+  | .two => "B" | .four => "F" | .nine => "N"
+
+def charsStr (cs : List Nat) : String := String.ofList (cs.map Char.ofNat)
+
+open Wellen.Bits Wellen.Store in
+def showLoaded (tpe : SigType) (l : Loaded) : Option String := do
+  let vals ← (l.times.zip l.entries).mapM fun (t, e) =>
+    match tpe with
+    | .bitvec bits => do
+      let (st, cs) ← entryString l.maxStates bits e
+      some s!"{t}={kindChar st}{charsStr cs}"
+    | .real => some s!"{t}=R{toHex e}"
+    | .string => some s!"{t}=S{toHex e}"
+  some (if vals.isEmpty then "-" else ",".intercalate vals)
+
+open Wellen.Bits Wellen.Spec in
+def showSpecValue : Value → String
+  | .bits syms => kindChar (kindOf syms) ++ charsStr (syms.map fun v => Wellen.Gen.lookup9.getD v 63)
+  | .real le => "R" ++ toHex le
+  | .str b => "S" ++ toHex b
+
+def driverCodec : Wellen.Store.Codec :=
+  { wantCompress := fun d => (d.foldl (· + ·) 0) % 3 != 0 }
+
+open Wellen.Bits Wellen.Store Wellen.Spec in
+/-- the faithful model: run the encoder(s), finish, load every signal -/
+def modelStore (types : List SigType) (ops : List Op) : Option String := do
+  let c := driverCodec
+  let mut done : List Enc := []
+  let mut e := newEnc types
+  for op in ops do
+    match op with
+    | .time t => e := timeChange c e t
+    | .vcd id v r => e ← vcdChange e id v r
+    | .raw id st v => e ← rawChange e id v st
+    | .real id le => e ← realChange e id le
+    | .split => done := e :: done; e := newEnc types
+  let encs := (e :: done).reverse
+  let mut first := encs.headD e
+  for other in encs.drop 1 do
+    first ← append c first other
+  let (r, tt) := finish c first
+  let mut out := "tt=" ++ natListStr tt
+  let mut i := 0
+  for tp in types do
+    let l ← loadSignal r i tp
+    out := out ++ "|" ++ (← showLoaded tp l)
+    i := i + 1
+  some out
+
+open Wellen.Spec in
+def specStore (types : List Wellen.Store.SigType) (ops : List Op) : String :=
+  match run types ops with
+  | none => "-"
+  | some (tt, sigs) =>
+    "tt=" ++ natListStr tt ++ String.join (sigs.map fun l =>
+      "|" ++ (if l.isEmpty then "-" else ",".intercalate (l.map fun (t, v) => s!"{t}={showSpecValue v}")))
+
+def handleStore (types ops : String) : String × String :=
+  match parseTypes types, (if ops = "-" then some [] else (ops.splitOn ";").mapM parseOp) with
+  | some ts, some os =>
+    ((modelStore ts os).getD "panic", specStore ts os)
+  | _, _ => ("bad-request", "-")
+
 def handle (line : String) : String × String :=
   match splitSp line with
+  | ["store", types, ops] => handleStore types ops
+  | ["store", types, ops, _] => handleStore types ops
   | ["getoffset_full", idx, needle] =>
     match natList? idx, needle.toNat? with
     | some l, some i =>
